@@ -11,7 +11,8 @@ Require Import Verif.gen.EventualGen.
 Local Open Scope Z_scope.
 
 Inductive script := Sc (id : Z) (acts : list act) (raises : bool)
-with act := AEnq (s : script) | AFlush (fid : Z).
+with act := AEnq (s : script) | AFlush (fid : Z) (cb : list script).
+(* AFlush fid cb: d = flushEventualQueue(); d.addCallback(lambda _: [eventually(s) for s in cb]) *)
 
 Definition sid (s : script) : Z := match s with Sc i _ _ => i end.
 Definition sacts (s : script) : list act := match s with Sc _ a _ => a end.
@@ -23,24 +24,29 @@ Record evcfg := {
   c_clears : bool;           (* _turn resets self._timer before running the batch *)
   c_order : iterorder;       (* order in which _turn walks the batch *)
   c_catch : bool;            (* each call is wrapped in try/except *)
-  c_fire_req_empty : bool;   (* observers are fired only `if not self._events` *)
+  c_fire : firemode;         (* how _turn serves the flush observers after the batch *)
   c_marks : bool;            (* self._in_turn is True while the batch runs *)
   c_guard : flushguard       (* when flush() returns an already-fired Deferred *)
 }.
 
 Definition src_cfg : evcfg := {|
   c_pos := ev_append_pos; c_arms := ev_append_arms_timer; c_clears := ev_turn_clears_timer;
-  c_order := ev_iter_order; c_catch := ev_catch; c_fire_req_empty := ev_fire_requires_empty;
+  c_order := ev_iter_order; c_catch := ev_catch; c_fire := ev_fire_mode;
   c_marks := ev_turn_marks_batch; c_guard := ev_flush_guard |}.
 
 (* the code as it was before commit "flushEventualQueue waits for the batch that is being run" *)
 Definition old_cfg : evcfg := {|
   c_pos := Tail; c_arms := true; c_clears := true; c_order := Forward; c_catch := true;
-  c_fire_req_empty := true; c_marks := false; c_guard := FlushWhenNoEvents |}.
+  c_fire := FireAllIfEmpty; c_marks := false; c_guard := FlushWhenNoEvents |}.
+
+(* ... and before commit "flush observers are only notified while the eventual queue is still empty" *)
+Definition old2_cfg : evcfg := {|
+  c_pos := Tail; c_arms := true; c_clears := true; c_order := Forward; c_catch := true;
+  c_fire := FireAllIfEmpty; c_marks := true; c_guard := FlushWhenIdle |}.
 
 Record qstate := {
   events : list script;      (* self._events *)
-  flushers : list Z;         (* self._flushObservers *)
+  flushers : list (Z * list script);   (* self._flushObservers, with what each callback will enqueue *)
   timer : bool;              (* self._timer is set *)
   sched : bool;              (* the reactor holds a pending call of _turn *)
   in_turn : bool             (* self._in_turn *)
@@ -59,26 +65,36 @@ Inductive ev :=
 
 Definition is_nil {A} (l : list A) : bool := match l with [] => true | _ => false end.
 
+(* eventually(s) *)
+Definition enq1 (c : evcfg) (st : qstate) (s : script) : qstate :=
+  let evs := match c_pos c with Tail => events st ++ [s] | Head => s :: events st end in
+  let arm := negb (timer st) && c_arms c in
+  {| events := evs; flushers := flushers st; timer := timer st || arm; sched := sched st || arm;
+     in_turn := in_turn st |}.
+
+Definition set_flushers (st : qstate) (fl : list (Z * list script)) : qstate :=
+  {| events := events st; flushers := fl; timer := timer st; sched := sched st; in_turn := in_turn st |}.
+
+(* a flush Deferred fires: the observation is made, then its callback enqueues cb.
+   ctx = Some rest: a callable of the batch is running and `rest` have not started *)
+Definition notify (c : evcfg) (ctx : option (list script)) (st : qstate) (fid : Z) (cb : list script) : qstate * list ev :=
+  (fold_left (enq1 c) cb st,
+   FlushFired fid (List.length (match ctx with Some r => r | None => [] end) + List.length (events st))
+              (match ctx with Some _ => true | None => false end) :: map (fun s => Sub (sid s)) cb).
+
 (* one action, performed either at top level (ctx = None) or by a callable of the batch
    being run (ctx = Some rest, rest = the callables of the batch not started yet) *)
 Definition do_act (c : evcfg) (ctx : option (list script)) (st : qstate) (a : act) : qstate * list ev :=
   match a with
-  | AEnq s =>
-      let evs := match c_pos c with Tail => events st ++ [s] | Head => s :: events st end in
-      let arm := negb (timer st) && c_arms c in
-      ({| events := evs; flushers := flushers st; timer := timer st || arm; sched := sched st || arm;
-          in_turn := in_turn st |}, [Sub (sid s)])
-  | AFlush fid =>
+  | AEnq s => (enq1 c st s, [Sub (sid s)])
+  | AFlush fid cb =>
       let idle := match c_guard c with
                   | FlushWhenIdle => is_nil (events st) && negb (in_turn st)
                   | FlushWhenNoEvents => is_nil (events st)
                   | FlushNeverSync => false
                   end in
-      if idle
-      then (st, [FlushFired fid (List.length (match ctx with Some r => r | None => [] end) + List.length (events st))
-                            (match ctx with Some _ => true | None => false end)])
-      else ({| events := events st; flushers := flushers st ++ [fid]; timer := timer st; sched := sched st;
-               in_turn := in_turn st |}, [])
+      if idle then notify c ctx st fid cb
+      else (set_flushers st (flushers st ++ [(fid, cb)]), [])
   end.
 
 Fixpoint run_acts (c : evcfg) (ctx : option (list script)) (st : qstate) (l : list act) : qstate * list ev :=
@@ -103,6 +119,33 @@ Fixpoint run_batch (c : evcfg) (st : qstate) (batch : list script) : qstate * li
         let '(st2, t2, ok) := run_batch c st1 rest in (st2, Ran (sid s) :: t1 ++ t2, ok)
   end.
 
+(* `while self._flushObservers and not self._events: self._flushObservers.pop(0).callback(None)` *)
+Fixpoint fire_while (c : evcfg) (fl : list (Z * list script)) (st : qstate) : qstate * list ev :=
+  match fl with
+  | [] => (set_flushers st [], [])
+  | (f, cb) :: rest =>
+      if is_nil (events st)
+      then let '(st1, t1) := notify c None st f cb in
+           let '(st2, t2) := fire_while c rest st1 in (st2, t1 ++ t2)
+      else (set_flushers st fl, [])
+  end.
+
+(* `observers, self._flushObservers = self._flushObservers, []; for o in observers: o.callback(None)` *)
+Fixpoint fire_all (c : evcfg) (fl : list (Z * list script)) (st : qstate) : qstate * list ev :=
+  match fl with
+  | [] => (st, [])
+  | (f, cb) :: rest =>
+      let '(st1, t1) := notify c None st f cb in
+      let '(st2, t2) := fire_all c rest st1 in (st2, t1 ++ t2)
+  end.
+
+Definition fire (c : evcfg) (st : qstate) : qstate * list ev :=
+  match c_fire c with
+  | FireWhileEmpty => fire_while c (flushers st) st
+  | FireAllIfEmpty => if is_nil (events st) then fire_all c (flushers st) (set_flushers st []) else (st, [])
+  | FireAllAlways => fire_all c (flushers st) (set_flushers st [])
+  end.
+
 (* the reactor runs the pending call of _turn, if any *)
 Definition turn (c : evcfg) (st : qstate) : qstate * list ev :=
   if negb (sched st) then (st, []) else
@@ -111,10 +154,9 @@ Definition turn (c : evcfg) (st : qstate) : qstate * list ev :=
   let batch := match c_order c with Forward => events st | Backward => rev (events st) end in
   let '(st1, t1, ok) := run_batch c st0 batch in
   if ok then
-    if negb (c_fire_req_empty c) || is_nil (events st1)
-    then ({| events := events st1; flushers := []; timer := timer st1; sched := sched st1; in_turn := false |},
-          t1 ++ map (fun f => FlushFired f (List.length (events st1)) false) (flushers st1))
-    else ({| events := events st1; flushers := flushers st1; timer := timer st1; sched := sched st1; in_turn := false |}, t1)
+    let '(st2, t2) := fire c {| events := events st1; flushers := flushers st1; timer := timer st1; sched := sched st1;
+                                in_turn := false |} in
+    (st2, t1 ++ t2)
   else (st1, t1).
 
 Inductive op := OAct (a : act) | OTurn.
@@ -137,12 +179,6 @@ Fixpoint rans (t : list ev) : list Z :=
 
 Definition flush_ok (e : ev) : Prop :=
   match e with FlushFired _ n r => n = 0%nat /\ r = false | _ => True end.
-
-(* no action of the script (or of a script it enqueues, recursively) calls flush *)
-Fixpoint sc_noflush (s : script) : bool :=
-  match s with
-  | Sc _ acts _ => forallb (fun a => match a with AEnq s' => sc_noflush s' | AFlush _ => false end) acts
-  end.
 
 (* ---- encoding of traces for the correspondence check (harness/c17.py) *)
 Definition enc_ev (e : ev) : list Z :=
